@@ -1251,6 +1251,9 @@ def c07_cases(rng, tier):
             names.append(base + str(v).rjust(ww, '0') + ext)
         if rng.random() < 0.15 and frames:
             names.append(base + '-' + str(rng.randint(1, 20)).rjust(max(w - 1, 1), '0') + ext)
+        if rng.random() < 0.2 and frames and w > 1:
+            # a wider number without a leading zero beside zero-padded frames
+            names.append(base + str(rng.randint(10 ** w, 10 ** (w + 1) - 1)) + ext)
         sib = [base + ext, base[:-1] if len(base) > 1 else 'q', base + 'bar' + ext, base + '1-5' + ext, base + ext + '.bak',
                'x' + base + '0001' + ext, base + '+5' + ext, base + '1e3' + ext, base + '0001' + ext + 'x', base + '.' + ext,
                base + '12a' + ext, base + ' 7' + ext, base + '99999999999999999999' + ext,
@@ -1376,8 +1379,17 @@ def c14_cases(rng, tier):
         n_ = abs(b - a) // k + 1
         d = k if a <= b else -k
         idxs = [0, 1, n_ - 1, n_, -1, n_ // 2, rng.randrange(n_), rng.randrange(n_)]
+        # indices far beyond the length: powers of two, max int, and indices whose product with the
+        # step wraps around 2^64 back into the span (a frame-at-index must still be "out of range")
+        far = [n_ + 1, 1 << 40, 1 << 45, 1 << 54, (1 << 62) + 1, (1 << 63) - 1, -(1 << 62)]
+        if k > 2:
+            q_ = -(-(1 << 64) // k)                # ceil(2^64 / k): k*q_ wraps to a value in [0, k)
+            far += [q_, q_ + 1, q_ + rng.randrange(max(1, min(n_, 1 << 20))), (1 << 64) // k]
+        idxs += [i for i in far if -(1 << 63) <= i < (1 << 63)]
         vals = [a, b, a + d * (n_ - 1), a + d * rng.randrange(n_), a + d * rng.randrange(n_) + (1 if k > 1 else 0),
                 a - d, a + d * n_, min(a, b) - 5, max(a, b) + 5]
+        # values at the edge of the int range (differences with the start overflow an int64)
+        vals += [(1 << 63) - 1, -(1 << 63), (1 << 63) - 1 - rng.randrange(1000), -(1 << 63) + rng.randrange(1000), (1 << 62), -(1 << 62)]
         out.append(case('big', [r, ','.join(map(str, idxs)), ','.join(map(str, vals))], r, 'plain' if st is None else 'stepped',
                         dict(a=a, b=b, k=k, d=d, n=n_, idxs=idxs, vals=vals, r=r)))
     return out
